@@ -27,6 +27,8 @@ type GenCfg struct {
 	Indexes   bool
 	BigBulk   int // when >0: one collection is loaded with this many documents
 	Determ    bool // only operations whose outcome is fully determined (crash engines)
+	Expiring  bool // some documents carry _expiresAt (past and future instants)
+	Wide      bool // some documents have 16+ top-level fields, a 70000-byte string
 }
 
 type Gen struct {
@@ -39,9 +41,10 @@ type Gen struct {
 	pool   []interface{}
 	nfiles int
 	count  int
+	queue  []Op // ops to issue next, in order (scenarios spanning several ops)
 }
 
-var collNamePool = []string{"a", "ab", "coll", "c:", "d:", "i:x", "x y", "naïve", "c.d", "a:b", "日本", "t", "", "coll:", "c:a", "\x00", "A", "a-rather-long-collection-name-0123456789", "a\xff", "log\xfe", "log\xff", "caf\xe9"}
+var collNamePool = []string{"a", "ab", "coll", "c:", "d:", "i:x", "x y", "naïve", "c.d", "a:b", "日本", "t", "", "coll:", "c:a", "\x00", "A", "a-rather-long-collection-name-0123456789", "a\xff", "log\xfe", "log\xff", "caf\xe9", "log", "log ", " log", "a\n", "\ta"}
 var fieldPool = []string{"a", "ab", "b", "x", "xy", "n", "s", "arr", "a_rather_long_field_name_for_an_index"}
 
 func i64(x int64) interface{}   { return x }
@@ -77,7 +80,29 @@ func safePool() []interface{} {
 		i64(1<<53 - 1), f64(math.MaxFloat64), tm(1700000000, 255, 0, "UTC"), // encodings whose last byte is 0xff
 		arr(obj("k", arr(obj("j", arr(tm(1700000000, 2, -3600, "W"), nil, i64(1)))))), // depth 5
 		obj("k", arr(arr(), obj(), "", nil)),
+		// integers beyond 2^53 which float64 holds exactly: comparison and index key agree on them
+		i64(1 << 60), i64(-(1 << 60)), u64(1 << 63),
+		// zone offsets beyond +-9h, and a negative one that is not a whole number of minutes (a local mean time)
+		tm(946684800, 3, 34200, "ACST"), tm(946684800, 4, -36000, "HST"), tm(946684800, 8, 50400, "LINT"), tm(946684800, 9, -17762, "LMT"), tm(1000000000, 0, -59, "odd-"),
+		wideObj(16), wideArr(17),
 	}
+}
+
+// wideObj / wideArr: containers beyond the 15-element short forms of the record encoding.
+func wideObj(n int) interface{} {
+	m := map[string]interface{}{}
+	for i := 0; i < n; i++ {
+		m[fmt.Sprintf("k%02d", i)] = int64(i)
+	}
+	return m
+}
+
+func wideArr(n int) interface{} {
+	a := make([]interface{}, n)
+	for i := range a {
+		a[i] = int64(i % 5)
+	}
+	return a
 }
 
 func longStr(tail string) interface{} { return strings.Repeat("p", 300) + tail }
@@ -93,6 +118,7 @@ func jsonSafePool() []interface{} {
 		tm(0, 0, 0, "UTC"), tm(946684800, 0, 7200, "EET"), tm(946684800, 999999999, -3600*5, "EST"),
 		arr(), arr(i64(1), i64(2)), arr("a", nil), arr(tm(946684800, 5, 3600, "CET")), arr(obj("k", tm(946684800, 6, -7200, "X"))),
 		obj(), obj("k", i64(1)), obj("a", i64(1), "b", "x"), obj("k", obj("j", tm(1700000000, 1, 60, "Z1"))),
+		tm(946684800, 3, 34200, "ACST"), tm(946684800, 4, -36000, "HST"), wideObj(16), wideArr(17),
 	}
 }
 
@@ -127,8 +153,13 @@ func DrawCfg(r *rng.R, mode, faults string) GenCfg {
 		names = append(names[:j], names[j+1:]...)
 	}
 	if r.Chance(0.5) && nColl >= 2 {
-		// force a prefix pair
+		// force a prefix pair, or names that differ only in surrounding white space
 		c.CollNames[0], c.CollNames[1] = "a", "ab"
+		if r.Chance(0.25) {
+			pairs := [][2]string{{"log", "log "}, {" log", "log"}, {"a", "a\n"}, {"\ta", "a"}}
+			pr := pairs[r.Intn(len(pairs))]
+			c.CollNames[0], c.CollNames[1] = pr[0], pr[1]
+		}
 	}
 	// fields: always include a prefix pair and the nested object
 	nf := r.Range(3, 6)
@@ -166,6 +197,13 @@ func DrawCfg(r *rng.R, mode, faults string) GenCfg {
 	if r.Chance(0.2) {
 		c.Paths = append(c.Paths, "zz") // never present
 	}
+	if r.Chance(0.25) {
+		c.Expiring = true // some documents carry an expiration instant
+		if r.Chance(0.5) {
+			c.Paths = append(c.Paths, "_expiresAt")
+		}
+	}
+	c.Wide = r.Chance(0.15)
 	if mode != "export" && r.Chance(0.12) {
 		c.Extremes = true
 		c.Indexes = false
@@ -302,7 +340,7 @@ func (g *Gen) doc(withID bool) map[string]interface{} {
 		}
 		if f == "n" && g.R.Chance(0.7) {
 			n := map[string]interface{}{}
-			if g.R.Chance(0.8) {
+			if g.R.Chance(0.7) {
 				n["a"] = g.value()
 			}
 			if g.R.Chance(0.5) {
@@ -328,8 +366,33 @@ func (g *Gen) doc(withID bool) map[string]interface{} {
 	if g.Cfg.JSONSafe && g.R.Chance(0.25) {
 		d["p.q"] = g.value() // a literal dotted key at top level: it is one field, not a path
 	}
+	if g.Cfg.Expiring && g.R.Chance(0.3) {
+		// the library stores the instant and nothing else: expired documents stay
+		if g.R.Bool() {
+			d["_expiresAt"] = tm(946684800, 0, 0, "UTC") // long ago
+		} else {
+			d["_expiresAt"] = tm(7258118400, 0, 3600, "CET") // year 2200
+		}
+	}
+	if g.Cfg.Wide && g.R.Chance(0.3) {
+		for i, n := 0, g.R.Range(13, 20); i < n; i++ {
+			d[fmt.Sprintf("w%02d", i)] = int64(i % 3)
+		}
+		if g.R.Chance(0.2) && !g.Cfg.JSONSafe {
+			d["big"] = strings.Repeat("z", 70000)
+		}
+	}
 	if withID {
-		d["_id"] = g.newID()
+		id := g.newID()
+		if g.R.Chance(0.08) {
+			// other 36-character spellings of a valid UUID are valid ids too, and are kept as given
+			if g.R.Bool() {
+				id = strings.ToUpper(id)
+			} else {
+				id = strings.ToUpper(id[:8]) + id[8:]
+			}
+		}
+		d["_id"] = id
 	}
 	return d
 }
@@ -632,6 +695,14 @@ func (g *Gen) Next(m *model.DB) Op {
 	if len(m.Colls) == 0 && g.R.Chance(0.8) {
 		return Op{K: "CreateCollection", Coll: g.pickColl(m, false)}
 	}
+	if len(g.queue) > 0 {
+		op := g.queue[0]
+		g.queue = g.queue[1:]
+		g.count++
+		g.twinify(&op)
+		g.decorate(&op)
+		return op
+	}
 	kinds := make([]string, 0, len(c.W))
 	for k := range c.W {
 		kinds = append(kinds, k)
@@ -704,7 +775,12 @@ func (g *Gen) make(k string, m *model.DB) Op {
 	switch k {
 	case "CreateCollection":
 		return Op{K: k, Coll: g.pickColl(m, g.R.Chance(0.15))}
-	case "DropCollection", "HasCollection":
+	case "DropCollection":
+		if mc != nil && len(mc.Docs) > 0 && len(mc.Indexes) > 0 && g.R.Chance(0.4) {
+			g.reincarnate(coll, mc)
+		}
+		return Op{K: k, Coll: coll}
+	case "HasCollection":
 		return Op{K: k, Coll: coll}
 	case "ListCollections":
 		return Op{K: k}
@@ -829,6 +905,49 @@ func (g *Gen) make(k string, m *model.DB) Op {
 	panic("gen: unknown kind " + k)
 }
 
+// reincarnate queues, behind a DropCollection, the re-creation of the same
+// name with documents that reuse the old ids under other values and with the
+// same indexes: whatever the drop left behind now points at live documents.
+func (g *Gen) reincarnate(coll string, mc *model.Coll) {
+	ids := mc.IDs()
+	fields := mc.IndexFields()
+	g.queue = append(g.queue, Op{K: "CreateCollection", Coll: coll})
+	mkIdx := func() {
+		for _, f := range fields {
+			if g.R.Chance(0.8) {
+				g.queue = append(g.queue, Op{K: "CreateIndex", Coll: coll, Field: f})
+			}
+		}
+	}
+	early := g.R.Bool()
+	if early {
+		mkIdx()
+	}
+	ins := Op{K: "Insert", Coll: coll}
+	for _, id := range ids {
+		if len(ins.Docs) >= g.Cfg.MaxDocs || g.R.Chance(0.2) {
+			continue
+		}
+		d := g.doc(false)
+		d["_id"] = id
+		ins.Docs = append(ins.Docs, val.Wrap(d))
+	}
+	if len(ins.Docs) > 0 {
+		g.queue = append(g.queue, ins)
+	}
+	if !early {
+		mkIdx()
+	}
+	for _, f := range fields {
+		if f == "_id" || g.R.Chance(0.5) {
+			continue
+		}
+		q := &model.Query{Coll: coll, SortCalls: true, Sort: []model.SortOpt{{Field: f, Dir: dirs[g.R.Intn(len(dirs))]}}}
+		g.queue = append(g.queue, Op{K: "FindAll", Q: q})
+		break
+	}
+}
+
 func min(a, b int) int {
 	if a < b {
 		return a
@@ -860,6 +979,33 @@ func (g *Gen) invalid(m *model.DB, coll string, mc *model.Coll) Op {
 			} else {
 				d["_id"] = "zz"
 			}
+		}
+		return op
+	}
+	if g.R.Chance(0.08) {
+		// a value the record encoding may refuse: a time whose zone offset is exactly
+		// minus one minute, or beyond what 16 bits of minutes hold; at top level, in an
+		// array, in an object. Refused or stored, never half of it, and the next
+		// operations must not notice
+		bad := []interface{}{tm(946684800, 0, -60, "m1"), tm(946684800, 5, 40000*60, "far"), tm(946684800, 0, -40000*60, "farw")}[g.R.Intn(3)]
+		switch g.R.Intn(3) {
+		case 1:
+			bad = arr(i64(1), bad)
+		case 2:
+			bad = obj("k", bad)
+		}
+		if mc != nil && len(mc.Docs) > 0 && g.R.Chance(0.4) {
+			return Op{K: "UpdateById", Coll: coll, ID: g.pickID(mc, 1), Upd: map[string]val.V{"s": val.Wrap(bad), "tag": val.Wrap(g.nextTag())}, UpdStyle: updStyles[g.R.Intn(len(updStyles))]}
+		}
+		n := g.R.Range(1, 4)
+		op := Op{K: "Insert", Coll: coll}
+		pos := g.R.Intn(n)
+		for i := 0; i < n; i++ {
+			d := g.doc(g.R.Bool())
+			if i == pos {
+				d["s"] = bad
+			}
+			op.Docs = append(op.Docs, val.Wrap(d))
 		}
 		return op
 	}
